@@ -104,16 +104,23 @@ C02Viol(o, act, o2) ==
       add == SubSeq(C2, n + 1, Len(C2))
       f   == n - 1                       \* fork height
       th  == Len(C) - 1
-      b   == act.batch
+      b0  == act.batch
+      \* a message may start with headers the client already has (locator
+      \* overlap); what it offers is the part after them
+      RECURSIVE Known(_)
+      Known(k) == IF k < Len(b0) /\ InSeq(C, b0[k + 1]) THEN Known(k + 1) ELSE k
+      nb  == SubSeq(b0, Known(0) + 1, Len(b0))
+      b   == b0
       listened == o.sync = act.p \/ o.cur = 1
       \* act.k = 1: the store reported an I/O error for the batch write
-      ext == act.op = "Headers" /\ act.k = 0 /\ FullyValidBatch(b) /\ Par(b[1]) = C[Len(C)]
-      hv  == /\ act.op = "Headers" /\ act.k = 0 /\ FullyValidBatch(b) /\ ~InSeq(C, b[1])
+      ext == /\ act.op = "Headers" /\ act.k = 0 /\ FullyValidBatch(b) /\ nb # <<>>
+             /\ Par(nb[1]) = C[Len(C)]
+      hv  == /\ act.op = "Headers" /\ act.k = 0 /\ FullyValidBatch(b) /\ nb # <<>>
              /\ \E g \in 0..(th - 1) :
-                   /\ C[g + 1] = Par(b[1]) /\ g >= LastCpReached(th)
-                   /\ SumWork(b) > SumWork(SubSeq(C, g + 2, Len(C)))
-      hvExpected == LET g == CHOOSE g \in 0..(th - 1) : C[g + 1] = Par(b[1])
-                    IN  SubSeq(C, 1, g + 1) \o b
+                   /\ C[g + 1] = Par(nb[1]) /\ g >= LastCpReached(th)
+                   /\ SumWork(nb) > SumWork(SubSeq(C, g + 2, Len(C)))
+      hvExpected == LET g == CHOOSE g \in 0..(th - 1) : C[g + 1] = Par(nb[1])
+                    IN  SubSeq(C, 1, g + 1) \o nb
   IN
   (IF C # C2 /\ act.op # "Headers" THEN {"StoreChangedWithoutHeaders"} ELSE {})
   \cup (IF act.op = "Headers" /\ \E i \in 1..Len(add) : ~InSeq(b, add[i])
@@ -131,7 +138,7 @@ C02Viol(o, act, o2) ==
         THEN {"IllegalTruncation"} ELSE {})
   \cup (IF SumWork(C2) < SumWork(C) /\ ~(act.op = "Headers" /\ FailsCheckpoint(b))
         THEN {"WorkDecreased"} ELSE {})
-  \cup (IF ext /\ listened /\ C2 # C \o b THEN {"ExtensionAdoptedInFull"} ELSE {})
+  \cup (IF ext /\ listened /\ C2 # C \o nb THEN {"ExtensionAdoptedInFull"} ELSE {})
   \cup (IF hv /\ ~ext /\ listened /\ C2 # hvExpected THEN {"HeavierBranchAdoptedInFull"} ELSE {})
 
 C19Viol(o, act, o2) ==
